@@ -223,7 +223,12 @@ func (g *GenStore) setLine(s *State, kind string, ms *modeSpec, md *vmode, line 
 		if a.key == "set peer" {
 			for _, l := range md.Lines {
 				if x := ms.find(strings.Fields(l)); x != nil && x.key == "set peer" {
-					return unsupported("second 'set peer' for an entry that has one (peer lists are not modelled)")
+					// Not a rule of the device (it keeps a list of peers),
+					// but of C08: entries are identified by their peer and
+					// a new entry gets a free number, so a peer is only
+					// set in an entry that has none; otherwise the number
+					// addresses the entry of somebody else.
+					return refuse("seq-occupied", "crypto map entry already has %q; %q would add a second peer to it", l, line)
 				}
 			}
 		}
